@@ -204,13 +204,15 @@ def giveLocks(locks, verbose=0):
     """Give up all locks in the provided list of (directory, file)
 
     If the directory ends up empty, it is removed (by rmdir itself: a count taken before it is stale by the
-    time it is acted upon, and a refused rmdir is nobody's error).  Each lock is dropped from the list as it is
-    released, so that a second call with the same list (the atexit/signal handler that takeLocks
-    installs, after the command's own call) has nothing left to do
+    time it is acted upon, and a refused rmdir is nobody's error).  Each lock is dropped from the list when it has
+    been released, so that a second call with the same list (the atexit/signal handler that takeLocks
+    installs) has nothing left to do after the command's own call, and, coming in the middle of it, releases
+    the lock that call was working on as well
     """
     while locks:
-        d, f = locks.pop(0)
+        d, f = locks[0]                 # dropped only when released: the signal handler may come in the middle
         if not os.path.isdir(d):
+            del locks[0]
             continue
 
         f = os.path.join(d, f)
@@ -225,6 +227,8 @@ def giveLocks(locks, verbose=0):
             os.rmdir(d)                 # the last one out removes the directory:
         except OSError:
             pass                        # it is refused while somebody else's lock file is in there
+
+        del locks[0]
 
 def clearLocks(path, verbose=0, noaction=False):
     """Remove all locks found in the directories listed in path"""
